@@ -12,6 +12,7 @@ import Driver.ResP
 import Driver.WidthP
 import Driver.RefP
 import Driver.InlP
+import Driver.CcP
 /-! Line-protocol driver (E3): first word selects a sub-protocol, one output line per input line.
     Imports only core-only Model/Spec modules so that it links as a `lean_exe`. -/
 open Gomjml
@@ -31,6 +32,7 @@ def handle (line : String) : String :=
   | ["ping"] => "pong"
   | "cache" :: args => Driver.CacheP.handle args
   | "sf" :: args => Driver.SfP.handle args
+  | "cc" :: args => Driver.CcP.handle args
   | "cli" :: args => cliHandle args
   | "api" :: args => Driver.ApiP.handle args
   | "pick" :: args => Driver.ApiP.pickHandle args
